@@ -261,3 +261,35 @@ Lemma nth_update_nth_neq {A} (d : A) i j f l :
 Proof.
   revert i j; induction l as [|x l IH]; intros [|i] [|j] H; cbn [update_nth nth]; auto; try congruence.
 Qed.
+
+(* short slices *)
+Lemma skipn_nth_cons {A} (d : A) n (l : list A) :
+  (n < length l)%nat -> skipn n l = nth n l d :: skipn (S n) l.
+Proof.
+  revert l; induction n as [|n IH]; intros [|x l] H; cbn [length] in H; try lia; cbn [skipn nth].
+  - reflexivity.
+  - apply IH. lia.
+Qed.
+
+Lemma slice_one {A} (d : A) a (l : list A) :
+  slice a (a + 1) l = if a <? nlen l then [nnth d a l] else [].
+Proof.
+  unfold slice, ntake, ndrop, nnth, nlen. replace (N.to_nat (a + 1 - a)) with 1%nat by lia.
+  destruct (a <? N.of_nat (length l)) eqn:E.
+  - rewrite (skipn_nth_cons d) by lia. reflexivity.
+  - rewrite skipn_all2 by lia. reflexivity.
+Qed.
+
+Lemma slice_two {A} (d : A) a (l : list A) :
+  slice a (a + 2) l =
+  if a + 1 <? nlen l then [nnth d a l; nnth d (a + 1) l]
+  else if a <? nlen l then [nnth d a l] else [].
+Proof.
+  unfold slice, ntake, ndrop, nnth, nlen. replace (N.to_nat (a + 2 - a)) with 2%nat by lia.
+  destruct (a + 1 <? N.of_nat (length l)) eqn:E.
+  - rewrite (skipn_nth_cons d) by lia. rewrite (skipn_nth_cons d (S (N.to_nat a))) by lia.
+    cbn [firstn]. repeat f_equal. lia.
+  - destruct (a <? N.of_nat (length l)) eqn:E2.
+    + rewrite (skipn_nth_cons d) by lia. rewrite (skipn_all2 l (n := S (N.to_nat a))) by lia. reflexivity.
+    + rewrite skipn_all2 by lia. reflexivity.
+Qed.
